@@ -10,10 +10,13 @@
 #ifdef VERIF_NATIVE
 #include <stdio.h>
 #include <stdlib.h>
+#include <string.h>
 extern unsigned long long verif_replay_vals[];
 extern unsigned verif_replay_n;
 extern unsigned verif_replay_i;
 extern int verif_failed;
+void verif_reject(const char *what);
+void verif_prop(int cond, const char *tag);
 static inline unsigned long long verif_next(void)
 { return verif_replay_i < verif_replay_n ? verif_replay_vals[verif_replay_i++] : 0ULL; }
 #define nondet_u8() ((uint8_t)verif_next())
@@ -21,16 +24,32 @@ static inline unsigned long long verif_next(void)
 #define nondet_u32() ((uint32_t)verif_next())
 #define nondet_u64() ((uint64_t)verif_next())
 #define nondet_bool() ((_Bool)(verif_next() & 1))
-#define __CPROVER_assume(c) do { if (!(c)) { fprintf(stderr, "REPLAY: assumption violated: %s\n", #c); exit(77); } } while (0)
-#define __CPROVER_assert(c, m) do { if (!(c)) { fprintf(stderr, "REPLAY-ASSERT-FAILED: %s\n", m); verif_failed = 1; } } while (0)
+#undef __CPROVER_assume
+#define __CPROVER_assume(c) do { if (!(c)) verif_reject(#c); } while (0)
+/* model-internal assertions (BOUND:, STRING:, ABORT: ...): a failure is reported like a property failure
+   but is not part of the differential digest (the real build has no model) */
+#define __CPROVER_assert(c, m) do { if (!(c)) { if (!strncmp((m), "BOUND:", 6)) verif_reject(m); else { fprintf(stderr, "REPLAY-MODEL-ASSERT-FAILED: %s\n", m); verif_failed = 1; } } } while (0)
 #define __CPROVER_cover(c) do { } while (0)
 #define COVER(c) do { } while (0)
+#define PROP(c, tag) verif_prop((c) ? 1 : 0, tag)
 #else
-uint8_t nondet_u8(void);
-uint16_t nondet_u16(void);
-uint32_t nondet_u32(void);
-uint64_t nondet_u64(void);
-_Bool nondet_bool(void);
+/* every symbolic input passes through verif_in_*(v): the parameter assignment `verif_in_v = <value>` is what
+   the driver reads from the counterexample trace, in call order, to replay it natively */
+uint8_t nondet_u8_raw(void);
+uint16_t nondet_u16_raw(void);
+uint32_t nondet_u32_raw(void);
+uint64_t nondet_u64_raw(void);
+_Bool nondet_bool_raw(void);
+static inline uint8_t verif_in_u8(uint8_t verif_in_v) { return verif_in_v; }
+static inline uint16_t verif_in_u16(uint16_t verif_in_v) { return verif_in_v; }
+static inline uint32_t verif_in_u32(uint32_t verif_in_v) { return verif_in_v; }
+static inline uint64_t verif_in_u64(uint64_t verif_in_v) { return verif_in_v; }
+static inline _Bool verif_in_bool(_Bool verif_in_v) { return verif_in_v; }
+#define nondet_u8() verif_in_u8(nondet_u8_raw())
+#define nondet_u16() verif_in_u16(nondet_u16_raw())
+#define nondet_u32() verif_in_u32(nondet_u32_raw())
+#define nondet_u64() verif_in_u64(nondet_u64_raw())
+#define nondet_bool() verif_in_bool(nondet_bool_raw())
 #ifdef VERIF_COVER
 /* reachability twin: every COVER must come back FAILED (= reachable and satisfiable) */
 #define COVER(c) __CPROVER_assert(!(c), "COVER: " #c)
@@ -40,7 +59,9 @@ _Bool nondet_bool(void);
 #endif
 
 /* property assertion: the text before the first ':' is the tag used in known-findings.txt */
+#ifndef VERIF_NATIVE
 #define PROP(c, tag) __CPROVER_assert((c), tag)
+#endif
 /* end-of-harness reachability witness (checked by the cover run) */
 #define WITNESS_END() COVER(1)
 
